@@ -72,7 +72,11 @@ type fnCtx struct {
 	group   int
 	alias   map[string]map[string]bool // local identifier -> fields it may alias
 	ctor    bool                       // walking a constructor (its own nodes are discarded)
+	funcs   map[string]*ast.FuncLit    // local identifier -> function literal bound to it (x := func(..) {..})
+	loopDepth int                      // loops/switches open in the callers (inlined methods)
 }
+
+func (fc *fnCtx) inLoop() bool { return fc.loopDepth+len(fc.breaks) > 0 }
 
 type builder struct {
 	fset         *token.FileSet
@@ -217,7 +221,7 @@ func (b *builder) expr(e ast.Expr, frontier []int, fc *fnCtx) []int {
 	case *ast.FuncLit:
 		// a function value not called here: treated as possibly executed at this point, any number of times
 		head := b.emit("ISkip", frontier, x)
-		sub := &fnCtx{recv: fc.recv, stack: fc.stack, entry: fc.entry, labels: map[string]int{}, alias: fc.alias, ctor: fc.ctor}
+		sub := &fnCtx{recv: fc.recv, stack: fc.stack, entry: fc.entry, labels: map[string]int{}, alias: fc.alias, ctor: fc.ctor, funcs: fc.funcs}
 		out := b.block(x.Body, head, sub)
 		out = append(out, sub.returns...)
 		b.link(out, head[0])
@@ -283,7 +287,8 @@ func (b *builder) call(call *ast.CallExpr, frontier []int, fc *fnCtx, isGo bool)
 	async := asyncAPIs[calleeName]
 	// event handlers of one subscription and the two functions of a periodic job run sequentially:
 	// one single-instance group per such call
-	singleGroup := calleeName == "Events" || calleeName == "SchedulePeriodicJob"
+	// (a registration inside a loop creates several subscriptions / jobs: not single)
+	singleGroup := (calleeName == "Events" || calleeName == "SchedulePeriodicJob") && !fc.inLoop()
 	grp := -1
 	// arguments
 	for _, a := range call.Args {
@@ -291,6 +296,14 @@ func (b *builder) call(call *ast.CallExpr, frontier []int, fc *fnCtx, isGo bool)
 		case *ast.FuncLit:
 			if async {
 				g := b.addEntryG(fmt.Sprintf("%s@%s", calleeName, b.pos(av)), av.Body, fc.recv, "", grp, singleGroup)
+				if singleGroup {
+					grp = g
+				}
+				continue
+			}
+		case *ast.Ident:
+			if lit, ok := fc.funcs[av.Name]; ok && async {
+				g := b.addEntryG(fmt.Sprintf("%s@%s", calleeName, b.pos(lit)), lit.Body, fc.recv, "", grp, singleGroup)
 				if singleGroup {
 					grp = g
 				}
@@ -313,7 +326,7 @@ func (b *builder) call(call *ast.CallExpr, frontier []int, fc *fnCtx, isGo bool)
 	case *ast.FuncLit:
 		if isGo {
 			// a goroutine started once by the constructor (not in a loop) runs as a single thread
-			b.addEntryG(fmt.Sprintf("go@%s", b.pos(f)), f.Body, fc.recv, "", -1, fc.ctor && len(fc.breaks) == 0)
+			b.addEntryG(fmt.Sprintf("go@%s", b.pos(f)), f.Body, fc.recv, "", -1, fc.ctor && !fc.inLoop())
 			return frontier
 		}
 		return b.inlineBody(f.Body, frontier, fc, "")
@@ -321,7 +334,7 @@ func (b *builder) call(call *ast.CallExpr, frontier []int, fc *fnCtx, isGo bool)
 		if id, ok := f.X.(*ast.Ident); ok && fc.recv[id.Name] {
 			if m, isM := b.methods[f.Sel.Name]; isM {
 				if isGo {
-					b.addEntryG(f.Sel.Name, nil, nil, f.Sel.Name, -1, fc.ctor && len(fc.breaks) == 0)
+					b.addEntryG(f.Sel.Name, nil, nil, f.Sel.Name, -1, fc.ctor && !fc.inLoop())
 					return frontier
 				}
 				return b.inlineMethod(m, frontier, fc)
@@ -358,12 +371,12 @@ func (b *builder) inlineMethod(m *ast.FuncDecl, frontier []int, fc *fnCtx) []int
 		b.note("inlining depth 8 reached at %s", m.Name.Name)
 		return frontier
 	}
-	sub := &fnCtx{recv: map[string]bool{recvName(m): true}, stack: append(append([]string{}, fc.stack...), m.Name.Name), entry: fc.entry, labels: map[string]int{}, alias: map[string]map[string]bool{}}
+	sub := &fnCtx{recv: map[string]bool{recvName(m): true}, stack: append(append([]string{}, fc.stack...), m.Name.Name), entry: fc.entry, labels: map[string]int{}, alias: map[string]map[string]bool{}, ctor: fc.ctor, loopDepth: fc.loopDepth + len(fc.breaks)}
 	return b.finishFn(m.Body, frontier, sub)
 }
 
 func (b *builder) inlineBody(body *ast.BlockStmt, frontier []int, fc *fnCtx, _ string) []int {
-	sub := &fnCtx{recv: fc.recv, stack: fc.stack, entry: fc.entry, labels: map[string]int{}, alias: fc.alias, ctor: fc.ctor}
+	sub := &fnCtx{recv: fc.recv, stack: fc.stack, entry: fc.entry, labels: map[string]int{}, alias: fc.alias, ctor: fc.ctor, funcs: fc.funcs}
 	return b.finishFn(body, frontier, sub)
 }
 
@@ -503,6 +516,19 @@ func (b *builder) stmtL(s ast.Stmt, frontier []int, fc *fnCtx, label string) []i
 	case *ast.AssignStmt:
 		for _, r := range x.Rhs {
 			frontier = b.expr(r, frontier, fc)
+		}
+		// x := func(..) {..}: remember the literal, so that handing x to an asynchronous API registers an entry
+		if len(x.Lhs) == len(x.Rhs) {
+			for i, l := range x.Lhs {
+				if id, ok := l.(*ast.Ident); ok {
+					if lit, ok := x.Rhs[i].(*ast.FuncLit); ok {
+						if fc.funcs == nil {
+							fc.funcs = map[string]*ast.FuncLit{}
+						}
+						fc.funcs[id.Name] = lit
+					}
+				}
+			}
 		}
 		// aliases: x := recv.f / recv.f[k] / *recv.f (no type information: any such local may share memory with f)
 		for i, l := range x.Lhs {
@@ -765,8 +791,12 @@ func (b *builder) addEntryG(name string, body *ast.BlockStmt, recv map[string]bo
 				// a second registration that may run concurrently with the first makes the group multi-instance
 				// (the default registration of an exported method, weakExported, does not: handlers and periodic
 				// jobs that happen to be exported are only called by their event stream / scheduler goroutine)
-				if !single && g < 0 && !b.weakExported {
+				if !b.weakExported {
 					b.res.Single[pe.group] = false
+					if g >= 0 && g != pe.group {
+						// the entry now also runs on the thread of group g, concurrently with its first registration
+						b.res.Single[g] = false
+					}
 				}
 				return pe.group
 			}
